@@ -2,34 +2,73 @@ package utils
 
 import (
 	"runtime"
+	"sync"
 	"time"
-
-	"github.com/zishang520/engine.io/v2/verifhook"
 )
 
+// Timer is a one-shot (SetTimeout) or repeating (SetInterval) timer.
+//
+// Every arming of the runtime timer belongs to a generation; Stop and Refresh
+// start a new one under the mutex. A tick that fired for an older generation
+// (the runtime timer expired, its goroutine had not got to the mutex yet) finds
+// the generation changed and does nothing: after Stop has returned no callback
+// starts, and a Refresh always makes the callback due one full period later.
+// No goroutine waits on behalf of a timer, so none can be left behind.
 type Timer struct {
+	mu     sync.Mutex
 	timer  *time.Timer
 	sleep  time.Duration
 	fn     func()
-	stopCh chan struct{}
+	repeat bool
+	gen    uint64
 }
 
-func (t *Timer) Refresh() *Timer {
-	defer t.timer.Reset(t.sleep)
+func newTimer(fn func(), sleep time.Duration, repeat bool) *Timer {
+	t := &Timer{sleep: sleep, fn: fn, repeat: repeat}
+	t.mu.Lock()
+	t.arm()
+	t.mu.Unlock()
+	return t
+}
 
-	if !t.timer.Stop() {
-		go t.fn()
+// arm starts the runtime timer for the current generation (t.mu held).
+func (t *Timer) arm() {
+	gen := t.gen
+	t.timer = time.AfterFunc(t.sleep, func() { t.fire(gen) })
+}
+
+// fire runs on the runtime timer's own goroutine.
+func (t *Timer) fire(gen uint64) {
+	t.mu.Lock()
+	if t.gen != gen {
+		// cancelled or refreshed after this tick fired
+		t.mu.Unlock()
+		return
 	}
+	if t.repeat {
+		t.timer.Reset(t.sleep)
+	} else {
+		t.gen++ // spent: only a Refresh arms it again
+	}
+	t.mu.Unlock()
+	t.fn()
+}
 
+// Refresh makes the callback due one full period from now, whether the timer
+// is still pending, has fired or was cancelled.
+func (t *Timer) Refresh() *Timer {
+	t.mu.Lock()
+	t.gen++
+	t.timer.Stop()
+	t.arm()
+	t.mu.Unlock()
 	return t
 }
 
 func (t *Timer) Unref() {
-	runtime.AddCleanup(t, func(t *Timer) {
-		if t.timer.Stop() {
-			close(t.stopCh)
-		}
-	}, t)
+	runtime.AddCleanup(t, func(timer *time.Timer) {
+		timer.Stop()
+	}, t.timer)
 }
 
 // Deprecated: this method will be removed in the next major release, please use SetTimeout instead.
@@ -38,21 +77,7 @@ func SetTimeOut(fn func(), sleep time.Duration) *Timer {
 }
 
 func SetTimeout(fn func(), sleep time.Duration) *Timer {
-	timer := &Timer{
-		timer:  time.NewTimer(sleep),
-		sleep:  sleep,
-		stopCh: make(chan struct{}),
-	}
-	timer.fn = func() {
-		select {
-		case <-timer.timer.C:
-			fn()
-		case <-timer.stopCh:
-			return
-		}
-	}
-	go timer.fn()
-	return timer
+	return newTimer(fn, sleep, false)
 }
 
 func ClearTimeout(timer *Timer) {
@@ -61,33 +86,16 @@ func ClearTimeout(timer *Timer) {
 	}
 }
 
+// Stop cancels the timer: once it has returned, no callback starts.
 func (t *Timer) Stop() {
-	if t.timer.Stop() {
-		verifhook.At("timer.stop.stopped", t)
-		t.stopCh <- struct{}{}
-	}
+	t.mu.Lock()
+	t.gen++
+	t.timer.Stop()
+	t.mu.Unlock()
 }
 
 func SetInterval(fn func(), sleep time.Duration) *Timer {
-	timer := &Timer{
-		timer:  time.NewTimer(sleep),
-		sleep:  sleep,
-		stopCh: make(chan struct{}),
-	}
-	timer.fn = func() {
-		for {
-			select {
-			case <-timer.timer.C:
-				verifhook.At("timer.interval.ticked", timer)
-				timer.timer.Reset(timer.sleep)
-				go fn()
-			case <-timer.stopCh:
-				return
-			}
-		}
-	}
-	go timer.fn()
-	return timer
+	return newTimer(fn, sleep, true)
 }
 
 func ClearInterval(timer *Timer) {
